@@ -17,15 +17,17 @@ From Erbium Require Import Lib.Base Model.Cmsg Model.OutQuery Proofs.Cmsg Proofs
    missing, connect/write failures and connection errors), with each waiter
    submitting once: a waiter is either still waiting and has received nothing,
    or has received exactly one result; a reply it receives carries the id it
-   submitted and arrived under the wire id its query was sent with; nobody else
-   receives anything. *)
+   submitted, arrived under the wire id its query was sent with and carries the
+   question the waiter asked (a reply with another question is dropped, F45
+   repaired); nobody else receives anything. *)
 Theorem C07_demux_exactly_once : forall evs s o,
   demux_run d_init evs = (s, o) ->
   NoDup (map fst (submissions evs)) ->
   (forall w id, In (w, id) (submissions evs) ->
      (pending w (d_map s) = false -> exists r, deliveries w o = [r]) /\
      (pending w (d_map s) = true -> deliveries w o = []) /\
-     (forall orig wire, In (RReply orig wire) (deliveries w o) -> orig = id /\ In (Sent w wire) o)) /\
+     (forall orig wire rq, In (RReply orig wire rq) (deliveries w o) ->
+        orig = id /\ In (Sent w wire) o /\ In (w, rq) (questions evs))) /\
   (forall w, ~ In w (map fst (submissions evs)) -> deliveries w o = [] /\ pending w (d_map s) = false).
 Proof. exact demux_exactly_once. Qed.
 Check C07_demux_exactly_once : forall evs s o,
@@ -34,15 +36,18 @@ Check C07_demux_exactly_once : forall evs s o,
   (forall w id, In (w, id) (submissions evs) ->
      (pending w (d_map s) = false -> exists r, deliveries w o = [r]) /\
      (pending w (d_map s) = true -> deliveries w o = []) /\
-     (forall orig wire, In (RReply orig wire) (deliveries w o) -> orig = id /\ In (Sent w wire) o)) /\
+     (forall orig wire rq, In (RReply orig wire rq) (deliveries w o) ->
+        orig = id /\ In (Sent w wire) o /\ In (w, rq) (questions evs))) /\
   (forall w, ~ In w (map fst (submissions evs)) -> deliveries w o = [] /\ pending w (d_map s) = false).
 Print Assumptions C07_demux_exactly_once.
 
 Example C07_demux_exactly_once_nonvacuous :
-  let evs := [Submit 0 7 IoOk; Submit 1 7 IoOk; Submit 2 9 IoOk; Arrive 8; Arrive 8; Arrive 7; ConnError] in
+  let evs := [Submit 0 7 100 IoOk; Submit 1 7 101 IoOk; Submit 2 9 102 IoOk;
+              Arrive 8 101; Arrive 8 101; Arrive 7 100; Submit 3 7 103 IoOk; Arrive 7 100; ConnError] in
   NoDup (map fst (submissions evs)) /\
   snd (demux_run d_init evs) =
-  [Sent 0 7; Sent 1 8; Sent 2 9; Deliver 1 (RReply 7 8); Deliver 0 (RReply 7 7); Deliver 2 RErrTcp].
+  [Sent 0 7; Sent 1 8; Sent 2 9; Deliver 1 (RReply 7 8 101); Deliver 0 (RReply 7 7 100); Sent 3 7;
+   Deliver 3 RErrTcp; Deliver 2 RErrTcp].
 Proof. split; [simpl; repeat constructor; simpl; intuition discriminate | reflexivity]. Qed.
 
 (* ... and nobody waits forever: whatever is in flight is released by the next
@@ -69,43 +74,95 @@ Print Assumptions C07_demux_probe_total.
    so does every query submitted afterwards, whatever its id. *)
 Theorem C07_demux_collision_refuted :
   exists evs,
-    evs = [Submit 0 7 IoOk; Submit 1 7 IoOk] /\
+    evs = [Submit 0 7 100 IoOk; Submit 1 7 101 IoOk] /\
     NoDup (map fst (submissions evs)) /\
     deliveries 0 (snd (odemux_run o_init evs)) = [RErrInternal] /\
     deliveries 1 (snd (odemux_run o_init evs)) = [RErrInternal] /\
-    forall more w id i,
-      In (Deliver w RErrInternal) (snd (odemux_run o_init (evs ++ more ++ [Submit w id i]))) /\
-      forall r, In (Deliver w r) (snd (odemux_run (fst (odemux_run o_init evs)) (more ++ [Submit w id i]))) ->
+    forall more w id q i,
+      In (Deliver w RErrInternal) (snd (odemux_run o_init (evs ++ more ++ [Submit w id q i]))) /\
+      forall r, In (Deliver w r) (snd (odemux_run (fst (odemux_run o_init evs)) (more ++ [Submit w id q i]))) ->
                 r = RErrInternal.
 Proof. exact demux_collision_refuted. Qed.
 Check C07_demux_collision_refuted :
   exists evs,
-    evs = [Submit 0 7 IoOk; Submit 1 7 IoOk] /\
+    evs = [Submit 0 7 100 IoOk; Submit 1 7 101 IoOk] /\
     NoDup (map fst (submissions evs)) /\
     deliveries 0 (snd (odemux_run o_init evs)) = [RErrInternal] /\
     deliveries 1 (snd (odemux_run o_init evs)) = [RErrInternal] /\
-    forall more w id i,
-      In (Deliver w RErrInternal) (snd (odemux_run o_init (evs ++ more ++ [Submit w id i]))) /\
-      forall r, In (Deliver w r) (snd (odemux_run (fst (odemux_run o_init evs)) (more ++ [Submit w id i]))) ->
+    forall more w id q i,
+      In (Deliver w RErrInternal) (snd (odemux_run o_init (evs ++ more ++ [Submit w id q i]))) /\
+      forall r, In (Deliver w r) (snd (odemux_run (fst (odemux_run o_init evs)) (more ++ [Submit w id q i]))) ->
                 r = RErrInternal.
 Print Assumptions C07_demux_collision_refuted.
 
 (* ... and a collision is the only way: on every history in which no submission
-   carries an id that is in flight, the code as found produces exactly the
-   outputs of the repaired code (so C07_demux_exactly_once applies to it) and
-   its task stays alive. *)
-Theorem C07_demux_orig_agrees_without_collision : forall evs, no_collision o_init evs ->
+   carries an id that is in flight and every reply arriving under an id in
+   flight answers the question sent under it, the code as found produces
+   exactly the outputs of the repaired code (so C07_demux_exactly_once applies
+   to it) and its task stays alive. *)
+Theorem C07_demux_orig_agrees_without_collision : forall evs,
+  no_collision o_init evs -> well_answered d_init evs ->
   snd (odemux_run o_init evs) = snd (demux_run d_init evs) /\
   o_dead (fst (odemux_run o_init evs)) = false.
 Proof. exact orig_agrees_without_collision. Qed.
-Check C07_demux_orig_agrees_without_collision : forall evs, no_collision o_init evs ->
+Check C07_demux_orig_agrees_without_collision : forall evs,
+  no_collision o_init evs -> well_answered d_init evs ->
   snd (odemux_run o_init evs) = snd (demux_run d_init evs) /\
   o_dead (fst (odemux_run o_init evs)) = false.
 Print Assumptions C07_demux_orig_agrees_without_collision.
 
 Example C07_demux_orig_agrees_nonvacuous :
-  no_collision o_init [Submit 0 7 IoOk; Submit 1 8 IoOk; Arrive 8; Submit 2 8 IoOk; ConnError].
+  let evs := [Submit 0 7 100 IoOk; Submit 1 8 101 IoOk; Arrive 8 101; Submit 2 8 102 IoOk; ConnError] in
+  no_collision o_init evs /\ well_answered d_init evs.
 Proof. simpl. repeat split; reflexivity. Qed.
+
+(* ---- composition: the answer a client gets is the answer to ITS question ----
+   For every history of the shared TCP channel (any interleaving with the
+   other queries in flight, ids colliding or not, replies delayed, reordered,
+   repeated -- also after their id was re-used -- or lost, connection
+   failures), every outcome [u] of the query's own UDP retransmission loop
+   (every loss pattern, delay, jitter: [u] is arbitrary) and either client
+   transport: the reply built for the client carries the client's id, and it
+   either relays an upstream answer to the client's OWN question or is
+   SERVFAIL.  Honest upstream = a reply carries the answer to the question it
+   echoes; over UDP each attempt has its own connected socket (the kernel hands
+   it only replies to that attempt), which is why [answered_question] says [q]
+   there. *)
+Theorem C07_own_answer : forall evs s o,
+  demux_run d_init evs = (s, o) ->
+  NoDup (map fst (submissions evs)) ->
+  forall w id q, In (w, id) (submissions evs) -> In (w, q) (questions evs) ->
+  forall t, In t (deliveries w o) ->
+  forall client_tcp u cq up,
+    let rep := in_reply_of cq up (handle_query_model client_tcp id u t) in
+    ir_qid rep = cq /\
+    match answered_question client_tcp id q u t with
+    | Some q' => q' = q /\ ir_from_upstream rep = true /\ ir_rcode rep = up
+    | None => ir_rcode rep = SERVFAIL /\ ir_from_upstream rep = false
+    end.
+Proof. exact own_answer. Qed.
+Check C07_own_answer : forall evs s o,
+  demux_run d_init evs = (s, o) ->
+  NoDup (map fst (submissions evs)) ->
+  forall w id q, In (w, id) (submissions evs) -> In (w, q) (questions evs) ->
+  forall t, In t (deliveries w o) ->
+  forall client_tcp u cq up,
+    let rep := in_reply_of cq up (handle_query_model client_tcp id u t) in
+    ir_qid rep = cq /\
+    match answered_question client_tcp id q u t with
+    | Some q' => q' = q /\ ir_from_upstream rep = true /\ ir_rcode rep = up
+    | None => ir_rcode rep = SERVFAIL /\ ir_from_upstream rep = false
+    end.
+Print Assumptions C07_own_answer.
+
+(* the stale reply of F45: waiter 0 (question 100) is answered, its id 7 is taken by waiter 1
+   (question 101), the upstream repeats the reply to question 100 under id 7 -- dropped; the
+   code as found handed it to waiter 1 *)
+Example C07_own_answer_stale_reply :
+  let evs := [Submit 0 7 100 IoOk; Arrive 7 100; Submit 1 7 101 IoOk; Arrive 7 100; Arrive 7 101] in
+  snd (demux_run d_init evs) = [Sent 0 7; Deliver 0 (RReply 7 7 100); Sent 1 7; Deliver 1 (RReply 7 7 101)] /\
+  snd (odemux_run o_init evs) = [Sent 0 7; Deliver 0 (RReply 7 7 100); Sent 1 7; Deliver 1 (RReply 7 7 100)].
+Proof. split; reflexivity. Qed.
 
 (* ---- (ii) the UDP retransmission loop ---------------------------------
    For every fate of every transmission (lost / answered after any delay /
